@@ -10,6 +10,8 @@ type TimerState struct {
 	C   chan time.Time
 	ent *timerEnt
 	f   func()
+	// Period > 0 makes it a ticker: it re-arms itself every time it fires.
+	Period time.Duration
 }
 
 func (t *TimerState) fire(s *Sim) {
@@ -23,6 +25,9 @@ func (t *TimerState) fire(s *Sim) {
 	select {
 	case t.C <- Epoch.Add(s.now):
 	default:
+	}
+	if t.Period > 0 {
+		s.arm(t, t.Period)
 	}
 }
 
